@@ -9,12 +9,12 @@ EXTENDS TileLock
 MCCfgs == {
   [id |-> 1, nupd |-> <<2, 2, 2>>, pos |-> <<<<1, 1>>, <<1, 1>>, <<1, 1>>>>,
    reg |-> << << <<1>>, <<1, 4>> >>, << <<2>>, <<2, 4>> >>, << <<3>>, <<3, 4>> >> >>,
-   init |-> << <<>>, <<>> >>, keymode |-> "pos", fmt |-> <<0, 0, 0>>],
+   init |-> << <<>>, <<>> >>, keymode |-> "pos", fmt |-> <<0, 0, 0>>, env |-> <<0, 0, 0>>],
   [id |-> 2, nupd |-> <<2, 2, 2>>, pos |-> <<<<1, 2>>, <<2, 1>>, <<1, 1>>>>,
    reg |-> << << <<1, 2>>, <<1, 4>> >>, << <<2, 3>>, <<>> >>, << <<3>>, <<1, 2, 3, 4>> >> >>,
-   init |-> << <<4>>, <<>> >>, keymode |-> "pos", fmt |-> <<0, 1, 0>>],
+   init |-> << <<4>>, <<>> >>, keymode |-> "pos", fmt |-> <<0, 1, 0>>, env |-> <<0, 0, 0>>],
   [id |-> 3, nupd |-> <<2, 2, 2>>, pos |-> <<<<1, 1>>, <<1, 1>>, <<1, 1>>>>,
    reg |-> << << <<1, 2, 3, 4>>, <<1, 2, 3, 4>> >>, << <<1, 2, 3, 4>>, <<1, 2, 3, 4>> >>, << <<1, 2, 3, 4>>, <<1, 2, 3, 4>> >> >>,
-   init |-> << <<1, 2>>, <<>> >>, keymode |-> "pos", fmt |-> <<0, 0, 0>>]
+   init |-> << <<1, 2>>, <<>> >>, keymode |-> "pos", fmt |-> <<0, 0, 0>>, env |-> <<0, 0, 0>>]
 }
 =============================================================================
